@@ -24,7 +24,7 @@ RULE = ('One case = generated chart whose guards and contract conditions are pro
         'at the execute_once call; every logged after/idle value must equal (step time - t_entry(owner) >= d) / '
         '(step time - t_idle(owner) >= d) with the stamps reconstructed from the observed entries and fired transitions. '
         'Non-trivial = distinct (chart, step, predicate occurrence) evaluated exactly at the boundary gap == d, or in a step '
-        'during which the clock was moved.')
+        'during which the clock was moved.  Clock variants: growing at every reading, epoch-sized values, exact rationals (Fraction).')
 ASSUMPTIONS = ['idle() inside the post-conditions/invariants of the transition being fired is accepted with either reading '
                '(stamp before or after that firing) - the statement does not fix it',
                'dyadic clock values make float arithmetic exact (W10)']
